@@ -258,8 +258,6 @@ def insertion_points(toks):
             depth_enum, in_enum = 0, False
         if a.startswith("#define") or b.startswith("#define"):
             continue                       # #define lines are line oriented
-        if b.startswith("["):
-            continue                       # between a field name and '['
         body = bool(depth_enum) and b != "}" and a != "{"
         risky = body and not (a == "," or b == ",")        # inside "name = value" of an enum member (finding F12 for newlines)
         pts.append((i, "enum-value" if risky else ("enum" if depth_enum else "")))
